@@ -199,6 +199,9 @@ func (m *MatchHTTP) handleHttp2WithPriorKnowledge(reader io.Reader, req *http.Re
 	}
 
 	framer := http2.NewFramer(io.Discard, reader)
+	// the framer allocates the announced frame length (up to 16 MiB by default)
+	// before reading it; nothing beyond the matching buffer can be read anyway
+	framer.SetMaxReadFrameSize(layer4.MaxMatchingBytes)
 
 	// read the first 10 frames until we get a headers frame (skipping settings, window update & priority frames)
 	var frame http2.Frame
